@@ -4,12 +4,13 @@ import copy
 import itertools
 import math
 import os
+import random
 
 from harness import core, py2lean, instantiate
 from harness.core import Outcome, f2b, b2f
 
 ID = "C11"
-LEAN_TARGETS = ["BeyondVerif.Props.C11", "BeyondVerif.Props.C11Mask", "BeyondVerif.Witness.C11"]
+LEAN_TARGETS = ["BeyondVerif.Props.C11", "BeyondVerif.Props.C11Mask", "BeyondVerif.Props.C11MaskLife", "BeyondVerif.Witness.C11"]
 THEOREMS = [
     "BeyondVerif.C11.earth_constants",
     "BeyondVerif.C11.station_on_ellipsoid_partial",
@@ -37,22 +38,36 @@ THEOREMS = [
     "BeyondVerif.C11.pwl_value_unique",
     "BeyondVerif.C11.mask_exact_hit",
     "BeyondVerif.C11.mask_two_pi_value_serves_at_zero",
+    "BeyondVerif.C11.mask_given_at_creation_is_stored_partial",
+    "BeyondVerif.C11.no_mask_given_is_no_mask",
+    "BeyondVerif.C11.mask_read_is_function_of_current_table",
+    "BeyondVerif.C11.mask_assignment_replaces_table",
+    "BeyondVerif.C11.mask_after_any_history_is_pwl_interp",
+    "BeyondVerif.C11.mask_given_at_creation_is_pwl_interp_partial",
     "BeyondVerif.C11W.earth_radius_is_not_wgs84",
+    "BeyondVerif.C11W.mask_given_as_ndarray_is_rejected",
 ]
 LEVEL_TEXT = ("Lean theorems over R about formulas translated from the Python source on every run (stations._geodetic_to_cartesian, the topocentric "
               "matrix expression of orient.TopocentricOrientation with rot2/rot3 of utils/matrix.py, forms._cartesian_to_spherical, the four "
               "measures.*.from_orbit value expressions, the Earth constants): for all lat, lon, alt the station lies on the ellipsoid a, b=a(1-f) "
               "at height alt along the ellipsoid normal; the matrix columns are north, west, up of the ENU triad (orthonormal, det +1); range, "
               "elevation, azimuth(=-theta) and range-rate equal the ENU quantities for every target; Range = r*(len(path)-1); get_mask (loop "
-              "modelled exactly) equals the piecewise-linear interpolant of the table, the 2 pi value serving at 0, for all strictly increasing "
-              "tables ending at 2 pi and all azimuths.")
-LEVEL_NOTE = ("R -> double gap covered only by tolerance-bounded correspondence; get_mask loop, frame-change plumbing (centre offset, inverse) and "
-              "expand() are hand-modelled and tied by correspondence; the ellipsoid's equatorial radius in constants.py is 6378136.3 m, not the "
+              "modelled statement for statement, its formulas — the reduction modulo 2 pi, the scan test, the wrap x0, the returned expression — "
+              "translated from the source) equals the piecewise-linear interpolant of the table, the 2 pi value serving at 0, for all strictly increasing "
+              "tables ending at 2 pi and all azimuths; the way from the table GIVEN to the table read is inside the model: the `mask=` handling of "
+              "TopocentricFrame.__init__ and create_station is translated from the source (a list/tuple of rows is stored unchanged), a state machine "
+              "describes assignment, in-place writes and reads of station.mask, and for every creation argument and every history whose current table "
+              "follows the convention the next read is the interpolant of that table (reads keep nothing, change nothing).")
+LEVEL_NOTE = ("R -> double gap covered only by tolerance-bounded correspondence; the control flow of get_mask (extraction refuses another statement shape), "
+              "the attribute semantics of station.mask (plain attribute: checked on the class bodies), Python truth values / np.asarray of the mask argument, "
+              "frame-change plumbing (centre offset, inverse) and expand() are hand-modelled and tied by correspondence (real station objects driven through "
+              "random creation arguments and operation histories against the compiled state machine); the ellipsoid's equatorial radius in constants.py is 6378136.3 m, not the "
               "WGS-84 value (known finding); Lean kernel + propext/Classical.choice/Quot.sound; py2lean translator and harness trusted")
 TECHNIQUE = "Lean 4 proof (ring/field_simp/trig identities; list induction over the mask scan loop) over formulas regenerated from the Python AST; differential correspondence"
 TRUSTED = [
     "harness/py2lean.py + the extraction code of harness/props/C11.py: translate the source expressions into Generated/StationGeo{F,R}.lean on every run",
-    "lean/templates/Station.tpl (hand-written: frame change M^-1 (r - s) with M^-1 = M^T, get_mask scan loop, expand()), tied by the correspondence run",
+    "lean/templates/Station.tpl (hand-written: frame change M^-1 (r - s) with M^-1 = M^T, control flow of the get_mask scan loop, the state machine of station.mask, expand()), tied by the correspondence run",
+    "the hand-written semantic primitives of the generated mask path (MASK_PRELUDE in harness/props/C11.py: Python's bool() of None / sequences / ndarrays, np.asarray of a sequence of two rows) and the encoding of a 2xN table as a list of columns",
     "numpy / libm double arithmetic vs R: tolerance 1e-9 relative (angles 1e-10 rad scaled by conditioning)",
     "numpy semantics: `@` is the matrix product, np.linalg.inv of an orthonormal matrix is its transpose, `x in array` / np.where(==) is float equality, float % is floored modulo",
 ]
@@ -60,26 +75,37 @@ ASSUMPTIONS = [
     "station coordinates are given in a numeric kind for which numpy converts to float64 radians: Python int/float, numpy int32/int64/uint32/float64, "
     "as tuple, list or array, also mixed (all generated in correspondence and oracle); narrow integer dtypes are a known finding, float32 input is "
     "checked by the oracle to the precision of the input",
-    "the station's parent frame is ITRF (alias WGS84), the default of create_station; equatorial=False",
+    "the coordinates are geodetic coordinates in the station's parent frame — an Earth-fixed frame: WGS84 = ITRF (default), PEF, TIRF (all generated); theorems and model "
+    "work in that frame; equatorial=True (axes of EME2000 at the same place) is checked by the oracle only",
+    "a mask is handed over at creation as a list / tuple of two rows (lists, tuples, arrays, numpy scalars, ints) or assigned later as a 2xN float array; reads use Python / numpy real scalars",
     "pole motion / Earth-orientation rotations between ITRF and the inertial frames belong to C02; here only expand() and the rest state of the station enter",
     "theorems are over R; the implementation computes in IEEE doubles",
     "mask tables follow the documented convention (strictly increasing azimuths, last azimuth 2 pi); other tables are modelled and compared in the correspondence but no theorem speaks about them",
 ]
 NOT_COVERED = ["the clause 'WGS-84' itself: station_on_ellipsoid_partial is about the ellipsoid (Earth.r, Earth.f) of constants.py, whose radius is not WGS-84's (counter-witness in Witness/C11.lean, known finding)",
                "angular rates theta_dot / phi_dot of the spherical form (not part of the property; compared in the correspondence only)",
-               "get_mask when no mask is set (raises ValueError) and create_station(mask=<ndarray>) (raises on `if mask`): outside the property",
+               "get_mask when no mask is set (raises ValueError): modelled and compared, outside the property",
+               "equatorial=True stations: no theorem (oracle: same place, at rest, axes of EME2000)",
                "light-time / signal-path effects in Range and Doppler (the code has none; the measures are instantaneous geometric quantities)",
                "visibility() iteration and the AOS/LOS/mask listeners (C10)"]
-OPEN = ["coordinates given as int8/uint8/int16/uint16 numpy arrays are converted in float16/float32 (known finding C11-station-narrow-int-dtype); the model "
+OPEN = ["a mask handed over at the creation of the station as a numpy.ndarray (the '2D array of float' of the docstring) is rejected: `if mask` on an array raises ValueError "
+        "(known finding C11-mask-ndarray-at-creation, counter-witness C11W.mask_given_as_ndarray_is_rejected); mask_given_at_creation_is_{stored,pwl_interp}_partial are "
+        "proved for lists / tuples of rows, and mask_after_any_history_is_pwl_interp covers the array assigned afterwards",
+        "coordinates given as int8/uint8/int16/uint16 numpy arrays are converted in float16/float32 (known finding C11-station-narrow-int-dtype); the model "
         "(doubles / R) does not describe that rounding, so these kinds are kept out of the correspondence and covered by the oracle only",
         "the ellipsoid has the WGS-84 flattening but the EGM-96 equatorial radius 6378136.3 m: stations are 0.7 m closer to the geocentre than WGS-84 coordinates say (known finding C11-station-ellipsoid-radius); all theorems are stated for the constants as they are in constants.py"]
 RULE = ("correspondence: stations on a lat/lon/alt grid (all quadrants, near-polar) + random, created through create_station from coordinates of 14 numeric kinds "
         "(Python/numpy ints and floats, tuples, lists, arrays, mixed) with the model fed the exact values in degrees (op create + every station-frame op); targets from 1 km to lunar distance in ITRF with velocities; ops geo / topom / "
-        "topo (copy(frame=station, form='spherical')) / meas (the four measures, paths of 2-4 nodes) / sta2itrf / expand / mask (random tables of 1-12 points incl. "
-        "first azimuth 0, tables violating the convention, azimuths in [-4pi,4pi], exact hits, multiples of 2pi). non-trivial = generic input (not an edge constant); "
+        "topo (copy(frame=station, form='spherical')) / meas (the four measures, paths of 2-4 nodes) / sta2itrf / expand / mask (random tables of 1-72 points incl. "
+        "first azimuth 0, regular grids, tables violating the convention, azimuths in [-4pi,4pi], exact hits, multiples of 2pi, the middle of every segment incl. the last one) / "
+        "maskrun (a station created with mask= None / omitted / [] / () / list / tuple / rows of arrays / numpy scalars / int elevations / ndarray, keyword or positional, through "
+        "create_station or TopocentricFrame, parent frame default/WGS84/ITRF/PEF/TIRF, equatorial or not, then a history of assignments (4 array layouts), None, in-place column writes, "
+        "writes into the caller's own list, reads incl. azimuths asked before; replies and stored tables vs the state machine). Stations of the sweep are created with every option too. "
+        "non-trivial = generic input (not an edge constant); "
         "distinct = distinct request line. oracle: independent ENU computation in extended precision on the real API, ellipsoid membership/normal, rest in ITRF/PEF/TIRF, "
         "omega x r and finite differences in inertial frames, measures vs ENU quantities, "
-        "station position/axes for every numeric kind of coordinates incl. narrow numpy dtypes, mask vs independent interpolation")
+        "station position/axes for every numeric kind of coordinates incl. narrow numpy dtypes, mask vs independent interpolation for tables assigned, given at creation "
+        "(12 kinds of object x 4 entry points, round robin), re-assigned, written in place; parent frames; equatorial stations")
 
 TWO_PI = 2 * math.pi
 WGS84_A = 6378137.0
@@ -152,21 +178,115 @@ def typed_coords(kind, lat, lon, alt):
     raise ValueError(kind)
 
 
-def new_station(lat_deg, lon_deg, alt, mask=None, kind="float-tuple"):
+# ways a caller hands a horizon mask over when the station is created (`mask=` of create_station / TopocentricFrame):
+# kind of object x entry point.  "seq" kinds are stored (np.asarray), None / empty sequences mean "no mask", an ndarray is
+# rejected by the `if mask` truth-value test (ValueError; known limitation, NOT_COVERED).
+MASK_OBJ_KINDS = {"list": "seq", "tuple": "seq", "list-of-arrays": "seq", "tuple-of-lists": "seq", "list-np-scalars": "seq", "list-int-elev": "seq",
+                  "ndarray": "arr", "ndarray-F-order": "arr", "none": "absent", "omitted": "absent", "empty-list": "eseq", "empty-tuple": "eseq"}
+MASK_ENTRIES = ["create_station", "create_station-positional", "TopocentricFrame", "TopocentricFrame-positional"]
+PARENTS = ["default", "WGS84", "ITRF", "PEF", "TIRF"]
+
+
+def mask_object(okind, az, el):
+    """the object of kind `okind` holding the table (az, el); also the exact table it denotes (Python floats)"""
+    import numpy as np
+    az, el = [float(a) for a in az], [float(e) for e in el]
+    if okind == "list":
+        return [list(az), list(el)], (az, el)
+    if okind == "tuple":
+        return (tuple(az), tuple(el)), (az, el)
+    if okind == "list-of-arrays":
+        return [np.array(az, dtype=float), np.array(el, dtype=float)], (az, el)
+    if okind == "tuple-of-lists":
+        return (list(az), list(el)), (az, el)
+    if okind == "list-np-scalars":
+        return [[np.float64(a) for a in az], [np.float64(e) for e in el]], (az, el)
+    if okind == "list-int-elev":      # elevations given as whole numbers (Python ints) next to float azimuths
+        iel = [int(round(e)) for e in el]
+        return [list(az), iel], (az, [float(e) for e in iel])
+    if okind == "ndarray":
+        return np.array([az, el], dtype=float), (az, el)
+    if okind == "ndarray-F-order":
+        return np.asfortranarray(np.array([az, el], dtype=float)), (az, el)
+    if okind in ("none", "omitted"):
+        return None, ([], [])
+    if okind == "empty-list":
+        return [], ([], [])
+    if okind == "empty-tuple":
+        return (), ([], [])
+    raise ValueError(okind)
+
+
+def new_station(lat_deg, lon_deg, alt, mask=None, kind="float-tuple", mask_given=None, entry="create_station", parent="default", equatorial=False):
     """returns the station created by beyond from coordinates of the given numeric kind; `st.c11_deg` holds the exact
-    values (as Python floats) of the coordinates that were passed in"""
-    from beyond.frames.stations import create_station
+    values (as Python floats) of the coordinates that were passed in.
+    mask: assigned AFTER creation (`st.mask = array`).  mask_given = (okind, az, el): handed over AT creation through `entry`
+    (create_station(..., mask=obj), or TopocentricFrame(name, o, c, mask=obj) on the orientation and centre of a station made without).
+    parent: the `parent_frame` argument ("default" = not passed).  Exceptions of the constructor propagate (leftovers are removed)."""
+    import numpy as np
+    from beyond.frames import frames
+    from beyond.frames.stations import create_station, TopocentricFrame
     _setup()
     name = f"C11s{next(_counter)}"
     coords = typed_coords(kind, lat_deg, lon_deg, alt)
     vals = [float(c) for c in coords]
-    st = create_station(name, coords)
+    pf = None if parent == "default" else getattr(frames, parent)
+    kw = {}
+    if equatorial:
+        kw["equatorial"] = True
+    extra = []
+    if mask_given is not None:
+        okind = mask_given[0]
+        obj, _tbl = mask_object(*mask_given)
+    if mask_given is None or entry.startswith("TopocentricFrame"):
+        st = create_station(name, coords, **kw) if pf is None else create_station(name, coords, parent_frame=pf, **kw)
+        if mask_given is not None:
+            base = st
+            try:
+                if okind == "omitted":
+                    st = TopocentricFrame(name + "b", base.orientation, base.center)
+                elif entry.endswith("positional"):
+                    st = TopocentricFrame(name + "b", base.orientation, base.center, obj)
+                else:
+                    st = TopocentricFrame(name + "b", base.orientation, base.center, mask=obj)
+            except Exception:
+                drop_station(base)
+                raise
+            extra = [name + "b"]
+    else:
+        try:
+            if okind == "omitted":
+                st = create_station(name, coords, **kw) if pf is None else create_station(name, coords, pf, **kw)
+            elif entry.endswith("positional"):
+                st = create_station(name, coords, pf or frames.WGS84, obj, **kw)
+            elif pf is None:
+                st = create_station(name, coords, mask=obj, **kw)
+            else:
+                st = create_station(name, coords, mask=obj, parent_frame=pf, **kw)
+        except Exception:
+            drop_by_name(name, (pf or frames.WGS84).orientation, (pf or frames.WGS84).center)
+            raise
     st.c11_deg = vals
     st.c11_kind = kind
+    st.c11_name = name
+    st.c11_extra = extra
+    st.c11_given = obj if mask_given is not None else None
     if mask is not None:
-        import numpy as np
         st.mask = np.array(mask, dtype=float)
     return st
+
+
+def _detach(leaf, parent, name):
+    leaf.neighbors.pop(parent, None)
+    parent.neighbors.pop(leaf, None)
+    seen, todo = {parent}, [parent]
+    while todo:
+        n = todo.pop()
+        n.routes.pop(name, None)
+        for m in n.neighbors:
+            if m not in seen:
+                seen.add(m)
+                todo.append(m)
 
 
 def drop_station(st):
@@ -174,20 +294,27 @@ def drop_station(st):
     quadratic in the number of nodes, so thousands of registered stations would make every later frame change crawl.
     A station is a leaf of both graphs, so the routes between the remaining nodes are untouched."""
     from beyond.frames import frames, center, orient
-    name = st.name
-    for leaf, parent in ((st.orientation, st.orientation.parent), (st.center.node, center.Earth.node)):
-        leaf.neighbors.pop(parent, None)
-        parent.neighbors.pop(leaf, None)
-        seen, todo = {parent}, [parent]
-        while todo:
-            n = todo.pop()
-            n.routes.pop(name, None)
-            for m in n.neighbors:
-                if m not in seen:
-                    seen.add(m)
-                    todo.append(m)
+    name = getattr(st, "c11_name", st.name)
+    parent_c = next((n for n in st.center.node.neighbors), center.Earth.node)
+    if getattr(st.orientation, "parent", None) is not None:     # equatorial stations share the EME2000 orientation: nothing to detach
+        _detach(st.orientation, st.orientation.parent, name)
+        if f"{name}_to_{st.orientation.parent.name}" in orient.Orientation.__dict__:
+            delattr(orient.Orientation, f"{name}_to_{st.orientation.parent.name}")
+    _detach(st.center.node, parent_c, name)
+    for nm in [name] + list(getattr(st, "c11_extra", [])):
+        frames.dynamic.pop(nm, None)
+    if f"{name}_to_{parent_c.name}" in center.Center.__dict__:
+        delattr(center.Center, f"{name}_to_{parent_c.name}")
+
+
+def drop_by_name(name, parent_orientation, parent_center):
+    """same, for a station whose creation raised after its centre / orientation were linked (no station object to start from)"""
+    from beyond.frames import frames, center, orient
+    for parent in (parent_orientation, parent_center.node):
+        for leaf in [n for n in parent.neighbors if n.name == name]:
+            _detach(leaf, parent, name)
     frames.dynamic.pop(name, None)
-    for cls, attr in ((orient.Orientation, f"{name}_to_{st.orientation.parent.name}"), (center.Center, f"{name}_to_{center.Earth.name}")):
+    for cls, attr in ((orient.Orientation, f"{name}_to_{parent_orientation.name}"), (center.Center, f"{name}_to_{parent_center.name}")):
         if attr in cls.__dict__:
             delattr(cls, attr)
 
@@ -251,21 +378,26 @@ def gen_target(rng, spos, up):
 
 def gen_mask(rng):
     """(azimuths, elevations, kind) following the documented convention unless kind says otherwise"""
-    n = rng.choice([1, 2, 2, 3, 4, 5, 6, 8, 10, 12])
+    n = rng.choice([1, 2, 2, 2, 3, 4, 5, 6, 8, 10, 12, 12, 24, 72])
     u = rng.random()
     kind = "conv"
     if n == 1:
         az = [TWO_PI]
     else:
-        first_zero = u < 0.15
+        first_zero = u < 0.2
+        gap = 1e-3 if n <= 12 else 1e-5
         inner = sorted(rng.uniform(1e-3, TWO_PI - 1e-3) for _ in range(n - 1))
-        ok = all(b - a > 1e-3 for a, b in zip(inner, inner[1:]))
+        ok = all(b - a > gap for a, b in zip(inner, inner[1:]))
         while not ok:
             inner = sorted(rng.uniform(1e-3, TWO_PI - 1e-3) for _ in range(n - 1))
-            ok = all(b - a > 1e-3 for a, b in zip(inner, inner[1:]))
+            ok = all(b - a > gap for a, b in zip(inner, inner[1:]))
         if first_zero:
             inner[0] = 0.0
             kind = "conv-first-zero"
+        elif u < 0.3 and n > 2:
+            # regular grid in degrees, as a surveyed mask is usually written
+            inner = [math.radians(360.0 * (j + 1) / n) for j in range(n - 1)]
+            kind = "conv-regular"
         az = inner + [TWO_PI]
     el = [rng.uniform(0, 1.4) for _ in az]
     return az, el, kind
@@ -286,22 +418,153 @@ def gen_mask_unconventional(rng):
 
 
 def gen_azimuths(rng, az, k):
+    """k azimuths (value, kind) for the table with azimuths `az`: anywhere in [-4 pi, 4 pi], on the nodes (also shifted by whole turns),
+    whole turns, inside the wrap-around segment [0, first node), inside the LAST segment (last interior node, 2 pi), tiny values"""
     out = []
+    lo_last = az[-2] if len(az) >= 2 else 0.0
     for _ in range(k):
         u = rng.random()
-        if u < 0.5:
+        if u < 0.4:
             out.append((rng.uniform(-2 * TWO_PI, 2 * TWO_PI), "random"))
-        elif u < 0.65:
+        elif u < 0.52:
             out.append((rng.choice(az), "exact-hit"))
-        elif u < 0.75:
+        elif u < 0.6:
             out.append((rng.choice(az) + rng.choice([-1, 1]) * TWO_PI, "hit-shifted"))
-        elif u < 0.85:
-            out.append((rng.choice([0.0, TWO_PI, -TWO_PI, 2 * TWO_PI, -2 * TWO_PI]), "multiple-of-2pi"))
-        elif u < 0.95:
+        elif u < 0.7:
+            out.append((rng.choice([0.0, TWO_PI, -TWO_PI, 2 * TWO_PI, -2 * TWO_PI, -0.0]), "multiple-of-2pi"))
+        elif u < 0.8:
             out.append((rng.uniform(0, az[0]) if az[0] > 0 else rng.uniform(0, 1e-3), "wrap-segment"))
+        elif u < 0.93:
+            x = rng.uniform(lo_last, az[-1]) if az[-1] > lo_last else rng.uniform(0, TWO_PI)
+            out.append((x + rng.choice([0, 0, 0, -1, 1, 2]) * TWO_PI, "last-segment"))
         else:
-            out.append((rng.choice([-1e-20, 1e-300, -1e-9, TWO_PI - 1e-12, 1e-12]), "tiny"))
+            out.append((rng.choice([-1e-20, 1e-300, -1e-9, TWO_PI - 1e-12, 1e-12, float(rng.randrange(-7, 14))]), "tiny-or-whole"))
     return out
+
+
+def segment_azimuths(az):
+    """one azimuth in the middle of every segment of the table (wrap-around segment first, last segment last), and every node"""
+    nodes = ([0.0] if az[0] > 0 else []) + list(az)
+    return [((a + b) / 2, "segment-middle") for a, b in zip(nodes, nodes[1:]) if b > a] + [(a, "node") for a in az]
+
+
+def azimuth_object(rng, x):
+    """the azimuth `x` as one of the kinds of number a caller passes to get_mask; returns (object, kind)"""
+    import numpy as np
+    u = rng.random()
+    if x == int(x) and abs(x) < 2 ** 31 and u < 0.6:
+        return (int(x), "int") if u < 0.3 else (np.int64(int(x)), "np-int64")
+    if u < 0.75:
+        return x, "float"
+    return np.float64(x), "np-float64"
+
+
+def gen_mask_arg(rng):
+    """(okind, entry) — how a mask is handed over at the creation of a station"""
+    u = rng.random()
+    if u < 0.7:
+        okind = rng.choice([k for k, c in MASK_OBJ_KINDS.items() if c == "seq"])
+    elif u < 0.8:
+        okind = rng.choice([k for k, c in MASK_OBJ_KINDS.items() if c == "arr"])
+    else:
+        okind = rng.choice([k for k, c in MASK_OBJ_KINDS.items() if c in ("absent", "eseq")])
+    return okind, rng.choice(MASK_ENTRIES)
+
+
+ASSIGN_KINDS = ["c-array", "transposed-view", "vstack", "default-dtype"]
+
+
+def assign_object(akind, az, el):
+    """the array of kind `akind` a caller assigns to `station.mask`"""
+    import numpy as np
+    if akind == "c-array":
+        return np.array([az, el], dtype=float)
+    if akind == "transposed-view":        # a non-contiguous view: columns of an Nx2 array of (azimuth, elevation) rows
+        return np.array(list(zip(az, el)), dtype=float).reshape(len(az), 2).T
+    if akind == "vstack":
+        return np.vstack([np.array(az, dtype=float), np.array(el, dtype=float)])
+    if akind == "default-dtype":
+        return np.array([list(az), list(el)]) if az else np.zeros((2, 0))
+    raise ValueError(akind)
+
+
+def gen_mask_history(rng, az, el, n_steps, strict, n_reads=3):
+    """a history of operations on a station that holds the table (az, el) — nothing when az is empty —: list of
+    ("Q", x, kind) get_mask | ("A", az, el, akind) station.mask = array | ("N",) station.mask = None | ("P", i, a, e) station.mask[:, i] = (a, e)
+    | ("L",) the caller writes into the list object it gave at creation.  It starts with reads (every segment of the table is visited, the last
+    one included), then `n_steps` modifications each followed by reads.
+    strict: every table follows the convention and every operation succeeds (oracle); otherwise anything the model covers: tables outside
+    the convention, empty tables, reads without a mask, writes out of range."""
+    ops = []
+    cur = [list(az), list(el)] if len(az) else None
+    asked = []
+
+    def reads(k, segments):
+        if cur and cur[0]:
+            qs = gen_azimuths(rng, cur[0], k)
+            sg = segment_azimuths(cur[0])
+            m = len(sg) - len(cur[0])
+            qs += ([sg[m - 1]] if m > 0 else []) + rng.sample(sg, min(segments, len(sg)))     # middle of the last segment, then others
+            if asked and rng.random() < 0.7:
+                qs.append((rng.choice(asked), "asked-before"))     # the same azimuth again, after the table changed: nothing may be remembered
+            rng.shuffle(qs)
+        else:
+            qs = [] if strict else [(rng.uniform(-7, 7), "random")]
+        asked.extend(x for x, _k in qs[:2])
+        ops.extend(("Q", x, k_) for x, k_ in qs)
+
+    reads(n_reads, 3)
+    if rng.random() < 0.5:
+        ops.append(("L",))
+        reads(1, 0)
+    for _ in range(n_steps):
+        u = rng.random()
+        if u < 0.45 or (strict and not cur):
+            a2, e2, _k = gen_mask(rng) if strict or rng.random() < 0.8 else gen_mask_unconventional(rng)
+            if not strict and rng.random() < 0.05:
+                a2, e2 = [], []
+            cur = [list(a2), list(e2)]
+            ops.append(("A", list(a2), list(e2), rng.choice(ASSIGN_KINDS)))
+        elif u < 0.55:
+            cur = None
+            ops.append(("N",))
+            if strict:
+                continue
+        elif cur and cur[0] and (strict or rng.random() < 0.9):
+            i = rng.randrange(len(cur[0]))
+            lo = cur[0][i - 1] if i > 0 else 0.0
+            hi = cur[0][i + 1] if i + 1 < len(cur[0]) else None
+            if hi is None or not lo < hi or rng.random() < 0.4:
+                a = cur[0][i]                                  # elevation only (the closing node keeps its azimuth)
+            elif strict or rng.random() < 0.9:
+                a = rng.uniform(lo, hi)                        # the node moves between its neighbours
+                a = a if lo < a < hi else cur[0][i]
+            else:
+                a = rng.uniform(-1, 7)                         # anywhere: the table may leave the convention (modelled, no theorem)
+            e = rng.uniform(0, 1.4)
+            cur[0][i], cur[1][i] = a, e
+            ops.append(("P", i, a, e))
+        else:
+            n = len(cur[0]) if cur else 0
+            ops.append(("P", n + rng.randrange(3), rng.uniform(0, 6), rng.uniform(0, 1)))
+        reads(2, 1)
+    return ops
+
+
+def apply_to_table(cur, op):
+    """the table [az, el] (None: no mask) a station is expected to hold after `op`; writes that raise leave it unchanged"""
+    if op[0] == "A":
+        return [list(op[1]), list(op[2])]
+    if op[0] == "N":
+        return None
+    if op[0] == "P" and cur is not None and op[1] < len(cur[0]):
+        cur = [list(cur[0]), list(cur[1])]
+        cur[0][op[1]], cur[1][op[1]] = op[2], op[3]
+    return cur
+
+
+def conventional(az):
+    return len(az) > 0 and az[-1] == TWO_PI and all(b > a for a, b in zip(az, az[1:]))
 
 
 # ---------------------------------------------------------------- independent geodesy (extended precision)
@@ -348,14 +611,14 @@ def pwl_reference(az, el, x):
 
 # ---------------------------------------------------------------- oracle on the real API
 
-def check_target(out, st, inp_s, a, f, lat, lon, alt, r, v, date, npath, skind="", tkind=""):
-    """one station, one Earth-fixed target: station-frame spherical/cartesian coordinates and the four measures vs the ENU reference"""
+def check_target(out, st, inp_s, a, f, lat, lon, alt, r, v, date, npath, skind="", tkind="", pframe="ITRF"):
+    """one station, one target given in the Earth-fixed frame the station was created in (`parent_frame`, default WGS84 = ITRF): station-frame spherical/cartesian coordinates and the four measures vs the ENU reference"""
     import numpy as np
     from beyond.orbits import StateVector
     from beyond.utils.measures import Range, Azimut, Elevation, Doppler
     lat_d, lon_d = inp_s["latlonalt_deg_m"][:2]
     ref = enu_reference(a, f, lat, lon, alt, r, v)
-    sv = StateVector(r + v, date, "cartesian", "ITRF")
+    sv = StateVector(r + v, date, "cartesian", pframe)
     t = sv.copy(frame=st, form="spherical")
     inp = dict(inp_s, target_itrf=r + v, date=str(date))
     rg = float(ref["range"])
@@ -397,7 +660,7 @@ def check_target(out, st, inp_s, a, f, lat, lon, alt, r, v, date, npath, skind="
                      dict(inp, path_len=npath), observed=val, expected=exp[nm])
 
 
-def check_station_state(out, st, inp_s, a, f, lat, lon, alt, date, ref0, skind="", ckind="", fd_frame=None):
+def check_station_state(out, st, inp_s, a, f, lat, lon, alt, date, ref0, skind="", ckind="", fd_frame=None, pframe="ITRF"):
     """one station: on the ellipsoid at its height along the normal, at the reference position, at rest in the Earth-fixed frames,
     omega x r in the frames of the rotation axis, velocity = d(position)/dt in inertial frame `fd_frame`"""
     import numpy as np
@@ -406,8 +669,8 @@ def check_station_state(out, st, inp_s, a, f, lat, lon, alt, date, ref0, skind="
     lat_d, lon_d = inp_s["latlonalt_deg_m"][:2]
     # --- the station sits on the ellipsoid at the given height, along the ellipsoid normal
     origin = StateVector([0, 0, 0, 0, 0, 0], date, "cartesian", st)
-    s_itrf = np.array(origin.copy(frame="ITRF"))
-    out.count(key=("ellipsoid", lat_d, lon_d, alt), kind="station-ellipsoid", station=skind, coords=ckind)
+    s_itrf = np.array(origin.copy(frame=pframe))      # in the frame the coordinates were given in
+    out.count(key=("ellipsoid", lat_d, lon_d, alt), kind="station-ellipsoid", station=skind, coords=ckind, parent=pframe)
     L = np.longdouble
     foot = np.array(s_itrf[:3], dtype=L) - L(alt) * ref0["U"]
     b = L(a) * (1 - L(f))
@@ -475,24 +738,176 @@ def check_coords_kind(out, kind, lat_d, lon_d, alt, a, f):
                  expected={"position": [float(c) for c in ref["s"]]})
 
 
-def check_mask(out, st, az, el, x, mkind="", akind="random"):
-    """get_mask(x) on the table (az, el) vs the independent piecewise-linear interpolation"""
+def real_store(st):
+    """what `station.mask` holds, in the notation of the driver: none | junk | t<n>,a1,e1,…"""
     import numpy as np
-    st.mask = np.array([az, el], dtype=float)
-    exp, xr = pwl_reference(az, el, x)
-    out.count(key=("mask", tuple(az), x), kind="mask-" + akind, table=mkind, npoints=len(az), nontrivial=akind == "random")
+    m = st.mask
+    if m is None:
+        return "none"
+    if not isinstance(m, np.ndarray) or m.ndim != 2 or m.shape[0] != 2 or m.dtype != np.float64:
+        return "junk"
+    return f"t{m.shape[1]}" + "".join("," + f2b(float(a)) + "," + f2b(float(e)) for a, e in zip(m[0], m[1]))
+
+
+def table_str(az, el):
+    return f"t{len(az)}" + "".join("," + f2b(float(a)) + "," + f2b(float(e)) for a, e in zip(az, el))
+
+
+def real_op(rng, st, op):
+    """apply one operation of a mask history to the real station; returns the reply: "ok" | float | "index-error" | "no-mask" | "type-error" | "<Exception>" """
+    import numpy as np
     try:
-        got = float(st.get_mask(x))
-    except Exception as e:  # noqa: BLE001
-        got = repr(e)
+        if op[0] == "A":
+            st.mask = assign_object(op[3], op[1], op[2])
+            return "ok"
+        if op[0] == "N":
+            st.mask = None
+            return "ok"
+        if op[0] == "P":
+            st.mask[:, op[1]] = (op[2], op[3])
+            return "ok"
+        if op[0] == "L":
+            given = getattr(st, "c11_given", None)
+            if isinstance(given, list) and given and all(isinstance(r, list) and r for r in given):
+                given[0][-1], given[1][0] = 1.0, 99.0
+            return None
+        if op[0] == "Q":
+            xo, _k = azimuth_object(rng, op[1])
+            with np.errstate(all="ignore"):
+                return float(st.get_mask(xo))
+    except IndexError:
+        return "index-error"
+    except TypeError:
+        return "type-error"
+    except ValueError as e:
+        return "no-mask" if "No mask" in str(e) else "ValueError"
+    raise ValueError(op)
+
+
+def mask_tolerance(az, el, akind):
     slope = max([abs((el[j + 1] - el[j]) / (az[j + 1] - az[j])) for j in range(len(az) - 1)] + [abs(el[0] - el[-1]) / az[0] if az[0] > 0 else 0.0])
+    return 1e-12 + 1e-13 * slope + 1e-9 * slope * (akind in ("tiny", "tiny-or-whole"))
+
+
+def check_mask_value(out, got, az, el, x, mkind="", akind="random", how="assigned", extra=None):
+    """`got` = get_mask(x) of a station that is supposed to hold the conventional table (az, el), vs the independent piecewise-linear
+    interpolation; `how` says how the table got there (it goes into the family of a failure and into its replay input)"""
+    exp, xr = pwl_reference(az, el, x)
+    out.count(key=("mask", how, tuple(az), x), kind="mask-" + akind, table=mkind, npoints=len(az), how=how, nontrivial=akind not in ("multiple-of-2pi",))
     # a table that gives a value at azimuth 0 itself is discontinuous there: skip the float-ambiguous neighbourhood
     if az[0] <= 0 and (xr < 1e-9 or TWO_PI - xr < 1e-9) and akind != "multiple-of-2pi":
+        return True
+    if not (isinstance(got, float) and abs(got - exp) <= mask_tolerance(az, el, akind)):
+        last_lo = az[-2] if len(az) >= 2 else 0.0
+        seg = "wrap" if (az[0] > 0 and xr < az[0]) else ("hit" if xr in az else ("last" if xr > last_lo else "interior"))
+        fam = "mask-interp-" + seg + ("" if how == "assigned" else "-" + how)
+        inp = {"azimuths": list(az), "elevations": list(el), "azim": x, "akind": akind, "how": how}
+        inp.update(extra or {})
+        out.fail(fam, "get_mask differs from the piecewise-linear interpolation of the table (2 pi value also serving at 0)"
+                 + ("" if how == "assigned" else f" — table {how}"), inp, observed=got, expected=exp)
+        return False
+    return True
+
+
+def check_mask(out, st, az, el, x, mkind="", akind="random"):
+    """get_mask(x) on the table (az, el) assigned to `station.mask` vs the independent piecewise-linear interpolation"""
+    import numpy as np
+    st.mask = np.array([az, el], dtype=float)
+    try:
+        with np.errstate(all="ignore"):
+            got = float(st.get_mask(x))
+    except Exception as e:  # noqa: BLE001
+        got = repr(e)
+    check_mask_value(out, got, az, el, x, mkind, akind)
+
+
+def check_mask_given(out, rng, okind, entry, az, el, ops, mkind="", coords=(10.0, 20.0, 30.0), parent="default", equatorial=False):
+    """a station created WITH the conventional table (az, el) handed over as an object of kind `okind` through `entry`, then driven
+    through the history `ops` (gen_mask_history, strict): the station holds the given table; every read is the interpolation of the table the
+    station holds at that moment — in every segment, on the nodes, outside [0, 2 pi) —: the given one, unaffected by later writes of the
+    caller into its own list, then the re-assigned / modified-in-place one."""
+    import numpy as np
+    extra = {"okind": okind, "entry": entry, "parent": parent, "equatorial": equatorial, "given": [list(az), list(el)]}
+    cls = MASK_OBJ_KINDS[okind]
+    out.count(key=("mask-given", okind, entry, tuple(az)), kind="mask-given", okind=okind, entry=entry, table=mkind, npoints=len(az), equatorial=equatorial)
+    try:
+        st = new_station(*coords, mask_given=(okind, az, el), entry=entry, parent=parent, equatorial=equatorial)
+    except Exception as e:  # noqa: BLE001
+        if cls == "arr" and isinstance(e, ValueError) and "truth value of an" in str(e):
+            out.fail("mask-given-rejected-ndarray-truth-value", f"a mask given at creation as a numpy array ({okind}) through {entry} is rejected: "
+                     "the truth value of an array is ambiguous", dict(extra, ops=[]), observed=repr(e), expected="a station holding the table")
+            return
+        out.fail(f"mask-given-rejected-{okind}", f"a mask given at creation as {okind} through {entry} is rejected",
+                 dict(extra, ops=[]), observed=repr(e), expected="a station holding the table")
         return
-    if not (isinstance(got, float) and abs(got - exp) <= 1e-12 + 1e-13 * slope + 1e-9 * slope * (akind == "tiny")):
-        seg = "wrap" if (az[0] > 0 and xr < az[0]) else ("hit" if xr in az else "interior")
-        out.fail("mask-interp-" + seg, "get_mask differs from the piecewise-linear interpolation of the table (2 pi value also serving at 0)",
-                 {"azimuths": list(az), "elevations": list(el), "azim": x, "akind": akind}, observed=got, expected=exp)
+    try:
+        _obj, (taz, tel) = mask_object(okind, az, el)         # the exact table the object denotes (list-int-elev rounds the elevations)
+        cur = [taz, tel] if taz else None
+        how = "given-at-" + entry.split("-")[0]
+        if real_store(st) != (table_str(taz, tel) if cur else "none"):
+            out.fail(f"mask-stored-{entry.split('-')[0]}", "the table held by the station differs from the table given at its creation",
+                     dict(extra, ops=[]), observed=None if st.mask is None else np.asarray(st.mask).tolist(), expected=cur)
+        for k, op in enumerate(ops):
+            rep = real_op(rng, st, op)
+            if op[0] == "Q":
+                if cur is not None and conventional(cur[0]):
+                    if not check_mask_value(out, rep, cur[0], cur[1], op[1], mkind, op[2], how, dict(extra, ops=[list(o) for o in ops[:k + 1]])):
+                        break
+            else:
+                cur = apply_to_table(cur, op)
+                if op[0] != "L":
+                    how = {"A": "after-reassignment", "N": "after-clear", "P": "after-write-in-place"}[op[0]]
+                    mkind = "history"
+                    if rep != "ok":
+                        out.fail("mask-" + how + "-raises", "an operation on station.mask that is valid for the table it holds raises",
+                                 dict(extra, ops=[list(o) for o in ops[:k + 1]]), observed=rep, expected="ok")
+                        break
+    finally:
+        drop_station(st)
+
+
+PARENT_NAME = {"default": "ITRF", "WGS84": "ITRF", "ITRF": "ITRF", "PEF": "PEF", "TIRF": "TIRF"}
+
+
+def station_options(rng, k):
+    """(parent, mask_given, entry) for the k-th station of a sweep: the first ones are plain create_station(name, coords) calls"""
+    if k < 3 or rng.random() < 0.4:
+        return "default", None, "create_station"
+    parent = rng.choice(PARENTS)
+    mgiven, entry = None, "create_station"
+    if rng.random() < 0.6:
+        okind = rng.choice([k_ for k_, c in MASK_OBJ_KINDS.items() if c != "arr"])
+        az, el, _mk = gen_mask(rng)
+        mgiven, entry = (okind, az, el), rng.choice(MASK_ENTRIES)
+    return parent, mgiven, entry
+
+
+def check_equatorial(out, rng, lat_d, lon_d, alt, a, f, date, parent):
+    """create_station(..., equatorial=True): the frame is centred on the same point of the ellipsoid (at rest in the Earth-fixed frame) and has the
+    axes of EME2000 — coordinates of a target there are the EME2000 difference target - station"""
+    import numpy as np
+    from beyond.orbits import StateVector
+    st = new_station(lat_d, lon_d, alt, parent=parent, equatorial=True)
+    try:
+        pframe = PARENT_NAME[parent]
+        lat_d, lon_d, alt = st.c11_deg
+        inp = {"latlonalt_deg_m": [lat_d, lon_d, alt], "equatorial": True, "parent": parent, "date": str(date)}
+        ref0 = enu_reference(a, f, math.radians(lat_d), math.radians(lon_d), alt, [0, 0, 0], [0, 0, 0])
+        origin = StateVector([0, 0, 0, 0, 0, 0], date, "cartesian", st)
+        sp = np.array(origin.copy(frame=pframe))
+        out.count(key=("equatorial", lat_d, lon_d, alt), kind="station-equatorial", parent=parent)
+        if not (float(np.max(np.abs(np.array(sp[:3], dtype=np.longdouble) - ref0["s"]))) < 1e-6 and np.all(np.abs(sp[3:]) < 1e-9)):
+            out.fail("station-equatorial-position", "an equatorial station is not at rest at the geodetic position of its coordinates", inp,
+                     observed=list(map(float, sp)), expected=list(map(float, ref0["s"])) + [0, 0, 0])
+        x = [rng.uniform(-1, 1) * 2e7 for _ in range(3)] + [rng.uniform(-1, 1) * 5e3 for _ in range(3)]
+        sv = StateVector(x, date, "cartesian", "EME2000")
+        got = np.array(sv.copy(frame=st, form="cartesian"))
+        exp = np.array(x) - np.array(origin.copy(frame="EME2000"))
+        if not (np.allclose(got[:3], exp[:3], rtol=0, atol=1e-6) and np.allclose(got[3:], exp[3:], rtol=0, atol=1e-9)):
+            out.fail("station-equatorial-axes", "coordinates in an equatorial station frame are not the EME2000 difference target - station",
+                     dict(inp, state_eme2000=x), observed=list(map(float, got)), expected=list(map(float, exp)))
+    finally:
+        drop_station(st)
 
 
 def check_wgs84(out, st, inp_s, a, f, lat, lon, alt, date):
@@ -528,19 +943,24 @@ def oracle(ctx, widened):
     for k in range(n_st):
         lat_d, lon_d, alt, skind = gen_station(rng, k)
         ckind = "float-tuple" if rng.random() < 0.4 else rng.choice(WIDE_KINDS)
-        st = new_station(lat_d, lon_d, alt, kind=ckind)
+        # every option of create_station: the Earth-fixed frame the coordinates are given in, a mask handed over at creation
+        parent, mgiven, entry = station_options(rng, k)
+        pframe = PARENT_NAME[parent]
+        st = new_station(lat_d, lon_d, alt, kind=ckind, parent=parent, mask_given=mgiven, entry=entry)
         lat_d, lon_d, alt = st.c11_deg
         lat, lon = math.radians(lat_d), math.radians(lon_d)
         inp_s = {"latlonalt_deg_m": [lat_d, lon_d, alt], "coords_kind": ckind}
+        if parent != "default" or mgiven is not None:
+            inp_s.update(parent=parent, mask_given=None if mgiven is None else [mgiven[0], list(mgiven[1]), list(mgiven[2])], entry=entry)
         ref0 = enu_reference(a, f, lat, lon, alt, [0, 0, 0], [0, 0, 0])
         date = d0 + timedelta(seconds=rng.uniform(0, 4e7))
         check_station_state(out, st, inp_s, a, f, lat, lon, alt, date, ref0, skind, ckind,
-                            rng.choice(["EME2000", "MOD", "GCRF", "TEME", "G50"]) if k % 3 == 0 else None)
+                            rng.choice(["EME2000", "MOD", "GCRF", "TEME", "G50"]) if k % 3 == 0 else None, pframe=pframe)
         # --- targets: topocentric spherical coordinates vs ENU
         for _ in range(n_tg):
             r, v, tkind = gen_target(rng, [float(c) for c in ref0["s"]], [float(c) for c in ref0["U"]])
-            check_target(out, st, inp_s, a, f, lat, lon, alt, r, v, date, rng.choice([2, 3, 3, 4]), skind, tkind)
-        # --- target given in an inertial frame: the direct change to the station frame agrees with going through ITRF first
+            check_target(out, st, inp_s, a, f, lat, lon, alt, r, v, date, rng.choice([2, 3, 3, 4]), skind, tkind, pframe=pframe)
+        # --- target given in an inertial frame: the direct change to the station frame agrees with going through the Earth-fixed frame first
         if k % 2 == 0:
             fr = rng.choice(["EME2000", "TEME", "GCRF", "TOD"])
             rad = 6378e3 + 10 ** rng.uniform(5.3, 7.6)
@@ -548,7 +968,7 @@ def oracle(ctx, widened):
             dirv /= np.linalg.norm(dirv)
             x = list(rad * dirv) + [rng.uniform(-7e3, 7e3) for _ in range(3)]
             sv = StateVector(x, date, "cartesian", fr)
-            itrf = np.array(sv.copy(frame="ITRF"))
+            itrf = np.array(sv.copy(frame=pframe))
             ref = enu_reference(a, f, lat, lon, alt, list(itrf[:3]), list(itrf[3:]))
             t = sv.copy(frame=st, form="spherical")
             out.count(key=("via", fr, lat_d, tuple(x)), kind="topo-from-inertial", frame=fr)
@@ -562,22 +982,56 @@ def oracle(ctx, widened):
         if wgs_done < 3:
             wgs_done += 1
             check_wgs84(out, st, inp_s, a, f, lat, lon, alt, date)
+        # the mask handed over with the coordinates is the station's mask
+        if mgiven is not None and MASK_OBJ_KINDS[mgiven[0]] == "seq":
+            _o, (taz, tel) = mask_object(*mgiven)
+            for x, akind in gen_azimuths(rng, taz, 3) + segment_azimuths(taz)[:len(taz)][-1:]:
+                try:
+                    with np.errstate(all="ignore"):
+                        got = float(st.get_mask(x))
+                except Exception as e:  # noqa: BLE001
+                    got = repr(e)
+                check_mask_value(out, got, taz, tel, x, "conv", akind, "given-at-" + entry.split("-")[0],
+                                 {"okind": mgiven[0], "entry": entry, "parent": parent, "given": [list(mgiven[1]), list(mgiven[2])], "ops": [["Q", x, akind]]})
         drop_station(st)
     # --- the station is where its coordinates say, whatever numeric kind they are given in
     for kind in WIDE_KINDS + NARROW_INT_KINDS + OTHER_KINDS:
         for _ in range(12 if big else 3):
             lat_d, lon_d, alt, _sk = gen_station(rng)
             check_coords_kind(out, kind, lat_d, lon_d, alt, a, f)
-    # --- horizon mask
+    # --- equatorial=True: same place, axes of EME2000
+    for _ in range(40 if big else 6):
+        lat_d, lon_d, alt, _sk = gen_station(rng)
+        check_equatorial(out, rng, lat_d, lon_d, alt, a, f, d0 + timedelta(seconds=rng.uniform(0, 4e7)), rng.choice(PARENTS))
+    # --- horizon mask assigned to station.mask
     st = new_station(10.0, 20.0, 30.0)
     n_tab = 3000 if big else 150
     for i in range(n_tab):
         az, el, mkind = gen_mask(rng)
-        for x, akind in gen_azimuths(rng, az, 12):
+        sg = segment_azimuths(az)
+        for x, akind in gen_azimuths(rng, az, 10) + sg[:len(sg) - len(az)][-1:] + [rng.choice(sg)]:
             check_mask(out, st, az, el, x, mkind, akind)
     drop_station(st)
+    # --- horizon mask handed over at the creation of the station (every kind of object x every entry point), and its life afterwards
+    combos = [(ok, en) for en in MASK_ENTRIES for ok in MASK_OBJ_KINDS]
+    rng.shuffle(combos)
+    # a second station lives through all of it: what happens to the others is none of its business
+    baz, bel, _bk = gen_mask(rng)
+    by = new_station(-35.0, 149.0, 600.0, mask_given=("list", baz, bel))
+    for i in range(1500 if big else 144):
+        okind, entry = combos[i % len(combos)]
+        az, el, mkind = gen_mask(rng)
+        given = MASK_OBJ_KINDS[okind] in ("seq", "arr")
+        ops = gen_mask_history(rng, az if given else [], el if given else [], rng.choice([0, 1, 2, 3]) if given else 2, strict=True, n_reads=6)
+        check_mask_given(out, rng, okind, entry, az, el, ops, mkind, parent=rng.choice(PARENTS), equatorial=rng.random() < 0.12)
+        x, akind = gen_azimuths(rng, baz, 1)[0]
+        check_mask_value(out, real_op(rng, by, ("Q", x, akind)), baz, bel, x, "conv", akind, "given-at-create_station-other-stations-created-since",
+                         {"okind": "list", "entry": "create_station", "given": [baz, bel], "ops": [["Q", x, akind]], "other_stations": i + 1})
+    drop_station(by)
     out.sample({"checks": "ellipsoid membership + normal, position formula, rest in ITRF/PEF/TIRF, omega x r in TOD/CIRF, finite-difference velocity in inertial frames, "
-                          "range/elevation/azimuth/range-rate/axes vs extended-precision ENU, the four measures, inertial targets, WGS-84 constants, mask vs np.interp"})
+                          "range/elevation/azimuth/range-rate/axes vs extended-precision ENU, the four measures, inertial targets, WGS-84 constants, mask vs np.interp "
+                          "(table assigned / given at creation as list, tuple, rows of arrays ... through create_station or TopocentricFrame / re-assigned / written in place), "
+                          "parent_frame WGS84 / ITRF / PEF / TIRF, equatorial=True"})
     return out
 
 
@@ -625,6 +1079,240 @@ def matMul3 (a b : List (List R)) : List (List R) :=
     row.getD 0 0 * (b.getD 0 []).getD j 0 + row.getD 1 0 * (b.getD 1 []).getD j 0 + row.getD 2 0 * (b.getD 2 []).getD j 0))
 
 """
+
+
+MASK_PRELUDE = """/-! ## the horizon mask: from the `mask=` argument to `self.mask`, and the formulas of `get_mask` -/
+
+/-- what a caller can hand over as `mask=` to `create_station` / `TopocentricFrame`: nothing or `None`; an empty list / tuple;
+a list / tuple of two rows `[[az…], [el…]]` of equal length (given here by its columns); a 2xN `numpy.ndarray` (by its columns) -/
+inductive MaskArg where
+  | absent
+  | emptySeq
+  | seq (tbl : List (R × R))
+  | arr (tbl : List (R × R))
+
+/-- what `self.mask` holds: `None`, a 2xN array (by its columns), or an array that is not 2xN (indexing `[0, :]` fails) -/
+inductive MaskStore where
+  | none
+  | table (tbl : List (R × R))
+  | junk
+
+/-- outcome of the constructor's handling of `mask=`: an exception, or the value stored in `self.mask` -/
+inductive MaskInit where
+  | raises
+  | stored (m : MaskStore)
+
+inductive PyTruth where
+  | isTrue
+  | isFalse
+  | raises
+
+/-- Python's `bool(mask)`: `None` and empty sequences are false, a sequence of two rows is true (whatever the rows hold), a numpy array
+with 0 or with 2 and more elements raises ValueError ("the truth value of an array … is ambiguous") -/
+def maskTruth : MaskArg → PyTruth
+  | .absent => .isFalse
+  | .emptySeq => .isFalse
+  | .seq _ => .isTrue
+  | .arr _ => .raises
+
+/-- `mask is None` -/
+def maskIsNone : MaskArg → PyTruth
+  | .absent => .isTrue
+  | _ => .isFalse
+
+/-- the truth value of `len(mask)` (also `len(mask) > 0`, `len(mask) != 0`): `len(None)` raises TypeError; a sequence of two rows and a 2xN array have length 2 -/
+def maskLenTruth : MaskArg → PyTruth
+  | .absent => .raises
+  | .emptySeq => .isFalse
+  | .seq _ => .isTrue
+  | .arr _ => .isTrue
+
+def pyNot : PyTruth → PyTruth
+  | .isTrue => .isFalse
+  | .isFalse => .isTrue
+  | .raises => .raises
+
+/-- `a and b` / `a or b` (the right operand is evaluated only when needed) -/
+def pyAnd (a b : PyTruth) : PyTruth :=
+  match a with
+  | .isTrue => b
+  | r => r
+
+def pyOr (a b : PyTruth) : PyTruth :=
+  match a with
+  | .isFalse => b
+  | r => r
+
+/-- `np.asarray(mask)` / `np.array(mask)`: the same numbers as a (new, for sequences) float array; `None` and `[]` give arrays that are not 2xN -/
+def npAsarray : MaskArg → MaskInit
+  | .absent => .stored .junk
+  | .emptySeq => .stored .junk
+  | .seq tbl => .stored (.table tbl)
+  | .arr tbl => .stored (.table tbl)
+
+"""
+
+GET_MASK_SHAPE = [
+    "if self.mask is None:\n    raise ValueError(…)",
+    "azim %= <period>",
+    "if azim in self.mask[0, :]:\n    return self.mask[1, np.where(azim == self.mask[0, :])[0][0]]",
+    "for next_i, mask_azim in enumerate(self.mask[0, :]):\n    if <stop>:\n        break\nelse:\n    next_i = 0",
+    "x0, y0 = self.mask[:, next_i - 1]",
+    "x1, y1 = self.mask[:, next_i]",
+    "if next_i - 1 == -1:\n    x0 = <wrap>",
+    "return <interp>",
+]
+
+
+def _no_docstring(body):
+    return body[1:] if body and isinstance(body[0], ast.Expr) and isinstance(getattr(body[0], "value", None), ast.Constant) \
+        and isinstance(body[0].value.value, str) else body
+
+
+def _mask_test_expr(t, what):
+    """Lean text (type PyTruth) of a condition on the argument `mask`"""
+    u = ast.unparse(t)
+    if u == "mask":
+        return "maskTruth mask"
+    if u == "mask is None":
+        return "maskIsNone mask"
+    if u == "mask is not None":
+        return "pyNot (maskIsNone mask)"
+    if u in ("len(mask)", "len(mask) > 0", "len(mask) != 0", "len(mask) >= 1"):
+        return "maskLenTruth mask"
+    if u in ("len(mask) == 0", "not len(mask)"):
+        return "pyNot (maskLenTruth mask)"
+    if isinstance(t, ast.UnaryOp) and isinstance(t.op, ast.Not):
+        return f"pyNot ({_mask_test_expr(t.operand, what)})"
+    if isinstance(t, ast.BoolOp):
+        f = "pyAnd" if isinstance(t.op, ast.And) else "pyOr"
+        txt = _mask_test_expr(t.values[-1], what)
+        for v in reversed(t.values[:-1]):
+            txt = f"{f} ({_mask_test_expr(v, what)}) ({txt})"
+        return txt
+    raise py2lean.Untranslatable(f"{what}: condition on the mask argument not understood: {u}")
+
+
+def _mask_value_expr(e, what):
+    """Lean text (type MaskInit) of the expression whose value goes to `self.mask`, in terms of the argument `mask`"""
+    if isinstance(e, ast.Constant) and e.value is None:
+        return "MaskInit.stored MaskStore.none"
+    if isinstance(e, ast.Call) and ast.unparse(e.func) in ("np.asarray", "np.array") and len(e.args) == 1 and not e.keywords \
+            and ast.unparse(e.args[0]) == "mask":
+        return "npAsarray mask"
+    if isinstance(e, ast.IfExp):
+        return (f"(match {_mask_test_expr(e.test, what)} with\n    | .raises => MaskInit.raises\n"
+                f"    | .isTrue => {_mask_value_expr(e.body, what)}\n    | .isFalse => {_mask_value_expr(e.orelse, what)})")
+    raise py2lean.Untranslatable(f"{what}: the value stored in self.mask is no longer None / np.asarray(mask) chosen by the truth value of mask: "
+                                 + ast.unparse(e))
+
+
+def mask_path_lean(stree, ftree):
+    """Lean definitions regenerated from stations.py: `initMask` (TopocentricFrame.__init__), `createStationMask` (create_station),
+    `maskReduce`, `maskStops`, `maskWrapX0`, `maskInterp` (get_mask).  Raises Untranslatable when the code no longer has the shape
+    the state-machine model of Station.tpl (plain attribute `mask`, read only by get_mask) and its scan loop were written for."""
+    U = py2lean.Untranslatable
+    tr = py2lean.Tr()
+    cls = next((s for s in stree.body if isinstance(s, ast.ClassDef) and s.name == "TopocentricFrame"), None)
+    fcls = next((s for s in ftree.body if isinstance(s, ast.ClassDef) and s.name == "Frame"), None)
+    if cls is None or fcls is None or [ast.unparse(b) for b in cls.bases] != ["frames.Frame"]:
+        raise U("TopocentricFrame is no longer a direct subclass of frames.Frame")
+    # `mask` is a plain instance attribute: no descriptor, no attribute hooks, nobody but __init__ writes it, nobody but get_mask reads it
+    for c in (cls, fcls):
+        for s in c.body:
+            names = [s.name] if isinstance(s, (ast.FunctionDef, ast.ClassDef)) else \
+                [n for t in getattr(s, "targets", [getattr(s, "target", None)]) if t is not None for n in tr.target_names(t)]
+            for n in names:
+                if n in ("mask", "__setattr__", "__getattr__", "__getattribute__", "__slots__", "__init_subclass__", "__new__"):
+                    raise U(f"class {c.name} defines `{n}`: `station.mask` is no longer a plain attribute")
+        if c.decorator_list or c.keywords:
+            raise U(f"class {c.name} has decorators / a metaclass")
+    for c in (cls, fcls):
+        for fn in [s for s in c.body if isinstance(s, ast.FunctionDef)]:
+            for node in ast.walk(fn):
+                if isinstance(node, ast.Attribute) and node.attr in ("mask", "__dict__") and (c.name, fn.name) not in (("TopocentricFrame", "__init__"), ("TopocentricFrame", "get_mask")):
+                    raise U(f"{c.name}.{fn.name} touches self.mask")
+                if isinstance(node, ast.Call) and ast.unparse(node.func) in ("setattr", "getattr", "vars", "delattr"):
+                    raise U(f"{c.name}.{fn.name} uses {ast.unparse(node.func)}()")
+    # --- TopocentricFrame.__init__
+    init = py2lean.find_function(stree, "TopocentricFrame.__init__")
+    a = init.args
+    if [x.arg for x in a.args] != ["self", "name", "orientation", "center", "mask"] or [ast.unparse(d) for d in a.defaults] != ["None"] \
+            or a.vararg or a.kwarg or a.kwonlyargs or a.posonlyargs or init.decorator_list:
+        raise U("TopocentricFrame.__init__ signature changed")
+    body = _no_docstring(init.body)
+    if len(body) != 2 or not isinstance(body[0], ast.Assign) or [ast.unparse(t) for t in body[0].targets] != ["self.mask"] \
+            or ast.unparse(body[1]) != "super().__init__(name, orientation, center)":
+        raise U("TopocentricFrame.__init__ is no longer `self.mask = …; super().__init__(name, orientation, center)`: " + "; ".join(ast.unparse(s) for s in body))
+    out = ["/-- `TopocentricFrame.__init__`: `" + ast.unparse(body[0]) + "` -/\ndef initMask (mask : MaskArg) : MaskInit :=\n  "
+           + _mask_value_expr(body[0].value, "TopocentricFrame.__init__") + "\n\n"]
+    finit = py2lean.find_function(ftree, "Frame.__init__")
+    for node in ast.walk(finit):
+        if isinstance(node, ast.Attribute) and isinstance(node.ctx, ast.Store) and node.attr not in ("name", "orientation", "center"):
+            raise U("Frame.__init__ stores self." + node.attr)
+    # --- create_station: `mask` goes unchanged, and only, to TopocentricFrame(name, o, c, mask=mask)
+    cfn = py2lean.find_function(stree, "create_station")
+    a = cfn.args
+    if [x.arg for x in a.args] != ["name", "latlonalt", "parent_frame", "mask", "equatorial"] \
+            or [ast.unparse(d) for d in a.defaults] != ["frames.WGS84", "None", "False"] or a.vararg or a.kwarg or a.kwonlyargs or a.posonlyargs or cfn.decorator_list:
+        raise U("create_station signature changed (name, latlonalt, parent_frame=frames.WGS84, mask=None, equatorial=False)")
+    uses = [n for n in ast.walk(cfn) if isinstance(n, ast.Name) and n.id == "mask"]
+    cbody = _no_docstring(cfn.body)
+    if len(uses) != 1 or not isinstance(cbody[-1], ast.Return) or ast.unparse(cbody[-1]) != "return TopocentricFrame(name, o, c, mask=mask)" \
+            or sum(isinstance(n, ast.Return) for n in ast.walk(cfn)) != 1:
+        raise U("create_station no longer hands `mask` unchanged (and only) to `return TopocentricFrame(name, o, c, mask=mask)`")
+    eq = next((s for s in cbody if isinstance(s, ast.If) and ast.unparse(s.test) == "equatorial"), None)
+    if eq is None or [ast.unparse(s) for s in eq.body] != ["o = orient.EME2000"] or len(eq.orelse) != 4 \
+            or ast.unparse(eq.orelse[0]) != "o = orient.TopocentricOrientation(name, latlonalt, parent=parent_frame.orientation)" \
+            or ast.unparse(eq.orelse[3]) != "o + parent_frame.orientation":
+        raise U("create_station: the `if equatorial: o = orient.EME2000 else: o = TopocentricOrientation(…)` choice changed")
+    if "c = center.Center(name, body=parent_frame.center.body)" not in [ast.unparse(s) for s in cbody]:
+        raise U("create_station: the centre is no longer Center(name, body=parent_frame.center.body)")
+    out.append("/-- `create_station(name, latlonalt, parent_frame, mask, equatorial)`: `mask` is used once, in `return TopocentricFrame(name, o, c, mask=mask)` -/\n"
+               "def createStationMask (mask : MaskArg) : MaskInit := initMask mask\n\n")
+    # --- get_mask: statement shape + the formulas
+    g = py2lean.find_function(stree, "TopocentricFrame.get_mask")
+    if [x.arg for x in g.args.args] != ["self", "azim"] or g.args.defaults or g.decorator_list:
+        raise U("get_mask signature changed")
+    gb = _no_docstring(g.body)
+    holes = {}
+
+    def shape(i, s):
+        if i == 0 and isinstance(s, ast.If) and not s.orelse and len(s.body) == 1 and isinstance(s.body[0], ast.Raise) \
+                and isinstance(s.body[0].exc, ast.Call) and ast.unparse(s.body[0].exc.func) == "ValueError":
+            return ast.unparse(s.test) == "self.mask is None"
+        if i == 1 and isinstance(s, ast.AugAssign) and isinstance(s.op, ast.Mod) and ast.unparse(s.target) == "azim":
+            holes["period"] = s.value
+            return True
+        if i == 3 and isinstance(s, ast.For) and len(s.body) == 1 and isinstance(s.body[0], ast.If) and not s.body[0].orelse:
+            holes["stop"] = s.body[0].test
+            t = copy.deepcopy(s)
+            t.body[0].test = ast.Name("STOP", ast.Load())
+            return ast.unparse(t) == GET_MASK_SHAPE[3].replace("<stop>", "STOP")
+        if i == 6 and isinstance(s, ast.If) and not s.orelse and len(s.body) == 1 and isinstance(s.body[0], ast.Assign) \
+                and ast.unparse(s.test) == "next_i - 1 == -1" and [ast.unparse(t) for t in s.body[0].targets] == ["x0"]:
+            holes["wrap"] = s.body[0].value
+            return True
+        if i == 7 and isinstance(s, ast.Return) and s.value is not None:
+            holes["interp"] = s.value
+            return True
+        if i in (2, 4, 5):
+            return ast.unparse(s) == GET_MASK_SHAPE[i]
+        return False
+
+    if len(gb) != len(GET_MASK_SHAPE) or not all(shape(i, s) for i, s in enumerate(gb)):
+        bad = next((i for i, s in enumerate(gb) if i >= len(GET_MASK_SHAPE) or not shape(i, s)), len(gb))
+        raise U(f"get_mask no longer has the statements the scan-loop model was written for (statement {bad}: expected `{GET_MASK_SHAPE[min(bad, len(GET_MASK_SHAPE) - 1)]}`)")
+    free = {k: sorted({n.id for n in ast.walk(v) if isinstance(n, ast.Name)} - {"np"}) for k, v in holes.items()}
+    if free["period"] or free["wrap"] or not set(free["stop"]) <= {"mask_azim", "azim"} or not set(free["interp"]) <= {"x0", "y0", "x1", "y1", "azim"}:
+        raise U(f"get_mask: unexpected variables in its formulas: {free}")
+    out.append("/-- `azim %= …` of `get_mask` -/\ndef maskReduce (azim : R) : R :=\n  "
+               + tr.expr(ast.BinOp(ast.Name("azim", ast.Load()), ast.Mod(), holes["period"])) + "\n\n")
+    out.append("/-- the test that ends the scan loop of `get_mask` -/\nabbrev maskStops (mask_azim azim : R) : Prop :=\n  " + tr.expr(holes["stop"]) + "\n\n")
+    out.append("/-- `x0` of the wrap-around segment (`if next_i - 1 == -1: x0 = …`) -/\ndef maskWrapX0 : R :=\n  " + tr.expr(holes["wrap"]) + "\n\n")
+    out.append("/-- the value `get_mask` returns between the nodes `(x0, y0)` and `(x1, y1)` -/\ndef maskInterp (x0 y0 x1 y1 azim : R) : R :=\n  "
+               + tr.expr(holes["interp"]) + "\n\n")
+    return "".join(out)
 
 
 def build_generated():
@@ -683,6 +1371,10 @@ def build_generated():
     parts.append("/-- the conversion `create_station` applies to latitude and longitude (a Python list, so element by element and without a\n"
                  "common dtype): `latlonalt[:2] = np.radians(latlonalt[:2])`; the altitude is passed on as given -/\n"
                  f"def stationRadians (deg : R) : R :=\n  {tr.expr(rad)}\n\n")
+    # 3c. stations.py: the path of the `mask=` argument from create_station / TopocentricFrame(...) to `self.mask`, and the
+    #     shape of get_mask (the hand-written scan-loop model of Station.tpl was written for exactly these statements)
+    parts.append(MASK_PRELUDE)
+    parts.append(mask_path_lean(ast.parse(open(spath).read()), _tree("frames", "frames.py")))
     # 4. orient.py: the topocentric matrix
     otree = _tree("frames", "orient.py")
     ofn = py2lean.find_function(otree, "TopocentricOrientation.__init__")
@@ -792,17 +1484,22 @@ def correspondence(ctx):
     for k in range(n_st):
         lat_d, lon_d, alt, skind = gen_station(rng, k)
         ckind = "float-tuple" if rng.random() < 0.4 else rng.choice(WIDE_KINDS)
-        st = new_station(lat_d, lon_d, alt, kind=ckind)
+        # every option of create_station: the Earth-fixed frame the coordinates are given in (the model works in that frame), a mask handed over at creation
+        parent, mgiven, entry = station_options(rng, k)
+        pframe = PARENT_NAME[parent]
+        st = new_station(lat_d, lon_d, alt, kind=ckind, parent=parent, mask_given=mgiven, entry=entry)
         lat_d, lon_d, alt_d = st.c11_deg             # exact values of what was passed to create_station
         lat, lon, alt = (float(c) for c in st.latlonalt)   # what the code made of them (radians, metres)
         inp_s = {"latlonalt_deg_m": [lat_d, lon_d, alt_d], "coords_kind": ckind}
+        if parent != "default" or mgiven is not None:
+            inp_s.update(parent=parent, mask_given=None if mgiven is None else [mgiven[0], list(mgiven[1]), list(mgiven[2])], entry=entry)
         degs = [f2b(lat_d), f2b(lon_d), f2b(alt_d)]
         # create_station itself: position of the centre link and orientation matrix from the coordinates as given
         req = " ".join(["c11create"] + degs)
         created = [float(c) for c in st.center.offset[:3]] + [float(c) for c in np.array(st.orientation._m).flatten()] + [lat, lon, alt]
         add(req, lambda rep, real=created, i=inp_s: _cmp(out, "create", "create_station (centre offset, orientation matrix, stored radians)", i, real, rep,
                                                           [2e-8] * 3 + [1e-14] * 9 + [1e-15, 2e-15, 0.0]))
-        out.count(key=req, kind="create", station=skind, coords=ckind)
+        out.count(key=req, kind="create", station=skind, coords=ckind, parent=parent, mask_given="no" if mgiven is None else mgiven[0], entry=entry if mgiven else "-")
         date = date0 + timedelta(seconds=rng.uniform(0, 3e7))
         g = TopocentricFrame._geodetic_to_cartesian(lat, lon, alt)
         spos = [float(c) for c in g[:3]]
@@ -816,14 +1513,14 @@ def correspondence(ctx):
         up = [float(c) for c in m[:, 2]]
         # the station origin seen from the parent frame, and a generic station-frame state
         for loc in ([0.0] * 6, [rng.uniform(-1e5, 1e5) for _ in range(3)] + [rng.uniform(-100, 100) for _ in range(3)]):
-            real = np.array(StateVector(loc, date, "cartesian", st).copy(frame="ITRF"))
+            real = np.array(StateVector(loc, date, "cartesian", st).copy(frame=pframe))
             req = " ".join(["c11back"] + degs + [f2b(c) for c in loc])
-            add(req, lambda rep, real=real, i=dict(inp_s, state=loc): _cmp(out, "back", "station frame -> ITRF", i, list(real), rep, [2e-8] * 3 + [1e-12] * 3))
+            add(req, lambda rep, real=real, i=dict(inp_s, state=loc): _cmp(out, "back", "station frame -> parent frame", i, list(real), rep, [2e-8] * 3 + [1e-12] * 3))
             out.count(key=req, kind="back", nontrivial=any(loc))
         for _ in range(n_tg):
             r, v, tkind = gen_target(rng, spos, up)
             x = r + v
-            sv = StateVector(x, date, "cartesian", "ITRF")
+            sv = StateVector(x, date, "cartesian", pframe)
             cart = np.array(sv.copy(frame=st, form="cartesian"))
             sph = np.array(sv.copy(frame=st, form="spherical"))
             req = " ".join(["c11topo"] + degs + [f2b(c) for c in x])
@@ -899,13 +1596,102 @@ def correspondence(ctx):
             add(req, lambda rep, got=got, inp={"azimuths": az, "elevations": el, "azim": x}: mask_check(rep, got, inp))
             out.count(key=req, kind="mask-" + akind, table=mkind, npoints=len(az), nontrivial=akind in ("random", "wrap-segment", "hit-shifted"))
     drop_station(st)
+    # the life of station.mask: handed over at creation (every kind of object, every entry point), assigned, cleared, written in place, read —
+    # the real object against the state machine `stationMaskRun` (constructor path translated from the source)
+    agree = [0, 0]
+
+    def run_check(rep, real, inp):
+        """real = "raises" | (store after construction, replies, final store)"""
+        if real == "raises" or rep == "raises" or "|" not in rep:
+            if rep != real:
+                out.fail("mask-life-constructor", "the constructor raises where the model stores the mask (or conversely)", inp, observed=real if real == "raises" else "stored " + real[0], expected=rep)
+            return
+        s0, reps, s1 = (t.strip() for t in rep.split("|"))
+        if real[0] != s0:
+            out.fail("mask-life-stored", "what the station holds after its creation differs from the model of `mask=` handling (createStationMask)", inp, observed=real[0], expected=s0)
+            return
+        reps = reps.split()
+        if len(reps) != len(real[1]):
+            out.fail("mask-life", "model returned a different number of replies", inp, observed=real[1], expected=reps)
+            return
+        for j, (mv, rv) in enumerate(zip(reps, real[1])):
+            agree[0] += 1
+            if isinstance(rv, float) and mv[0].isdigit():
+                mvf = b2f(mv)
+                same = (mvf == rv) or (math.isnan(mvf) and math.isnan(rv)) or (not (math.isinf(mvf) or math.isinf(rv)) and core.close(rv, mvf, rtol=1e-12, atol=1e-13))
+            else:
+                same = mv == rv
+            if not same:
+                out.fail("mask-life-reply", f"operation {j} of the history: the station answers differently from the model (maskRun)", inp,
+                         observed=rv, expected=b2f(mv) if mv[0].isdigit() else mv)
+                return
+            agree[1] += 1
+        if real[2] != s1:
+            out.fail("mask-life-final-store", "station.mask after the history differs from the model", inp, observed=real[2], expected=s1)
+
+    prev = [None, None, None, None]
+    for i in range(ctx.n(260, 6000)):
+        okind, entry = gen_mask_arg(rng)
+        u = rng.random()
+        az, el, mkind = gen_mask(rng) if u < 0.8 else gen_mask_unconventional(rng)
+        if u > 0.97:
+            az, el, mkind = [], [], "empty"
+        cls = MASK_OBJ_KINDS[okind]
+        _o, (taz, tel) = mask_object(okind, az, el)
+        ops = gen_mask_history(rng, taz if cls == "seq" else [], tel if cls == "seq" else [], rng.choice([0, 1, 2, 3, 5]), strict=False)
+        parent = rng.choice(PARENTS)
+        equat = rng.random() < 0.12
+        try:
+            stn = new_station(rng.uniform(-80, 80), rng.uniform(-180, 180), rng.uniform(0, 3000), mask_given=(okind, az, el), entry=entry, parent=parent, equatorial=equat)
+        except ValueError:
+            real = "raises"
+        else:
+            s0 = real_store(stn)
+            reps = [real_op(rng, stn, op) for op in ops]
+            real = (s0, [r for r in reps if r is not None], real_store(stn))
+            # the station of the previous history is still alive: it answers as it did (no state shared between stations)
+            if prev[0] is not None:
+                pst, pop, prep, pinp = prev
+                again = real_op(random.Random(0), pst, pop)
+                out.count(key=("other", tuple(pinp["given"][0][:2]), pop[1]), kind="mask-life-other-station", nontrivial=isinstance(prep, float))
+                if not (again == prep or (isinstance(again, float) and isinstance(prep, float) and math.isnan(again) and math.isnan(prep))):
+                    out.fail("mask-life-other-station", "a station answers get_mask differently after ANOTHER station was created and used (state shared between stations)",
+                             dict(pinp, then_other_station={"okind": okind, "entry": entry, "given": [list(az), list(el)]}, asked_again=list(pop)), observed=again, expected=prep)
+                drop_station(pst)
+                prev[0] = None
+            lastq = next((o for o in reversed(ops) if o[0] == "Q"), None)
+            if lastq is not None:
+                prev[:] = [stn, lastq, real_op(random.Random(0), stn, lastq), {"okind": okind, "entry": entry, "parent": parent, "equatorial": equat, "given": [list(az), list(el)], "ops": [list(o) for o in ops]}]
+            else:
+                drop_station(stn)
+        tb = lambda a_, e_: [str(len(a_))] + [f2b(c) for pr in zip(a_, e_) for c in pr]
+        toks = ["c11maskrun"] + {"absent": ["absent"], "eseq": ["eseq"], "seq": ["seq"] + tb(taz, tel), "arr": ["arr"] + tb(taz, tel)}[cls]
+        for op in ops:
+            toks += {"Q": lambda: ["Q", f2b(float(op[1]))], "A": lambda: ["A"] + tb(op[1], op[2]), "N": lambda: ["N"],
+                     "P": lambda: ["P", str(op[1]), f2b(op[2]), f2b(op[3])], "L": lambda: []}[op[0]]()
+        req = " ".join(toks)
+        inp = {"okind": okind, "entry": entry, "parent": parent, "equatorial": equat, "given": [list(az), list(el)], "ops": [list(o) for o in ops]}
+        add(req, lambda rep, real=real, inp=inp: run_check(rep, real, inp))
+        out.count(key=req, kind="mask-life", okind=okind, entry=entry, table=mkind, n_ops=f"{len(ops) // 10 * 10}+", npoints=len(az),
+                  nontrivial=cls == "seq" or any(o[0] == "A" for o in ops))
+        for o in ops:
+            out.tally("mask-life-op=" + o[0] + (":" + o[2] if o[0] == "Q" else ""))
+    if prev[0] is not None:
+        drop_station(prev[0])
     replies = core.Driver(ID).run(reqs)
     for req, fn, rep in zip(reqs, checks, replies):
         fn(rep)
-        if req.split()[0] in ("c11topo", "c11mask", "c11meas"):
+        if req.split()[0] in ("c11topo", "c11mask", "c11meas", "c11maskrun"):
             out.sample({"request": req[:100] + "…", "model": rep[:80]}, limit=3)
     out.notes.append(f"get_mask: {exact[1]} of {exact[0]} values bit-identical between numpy and the compiled model")
+    out.notes.append(f"mask life: {agree[1]} of {agree[0]} replies of real station objects agree with the state machine")
     return out
+
+
+def _options(inp):
+    """the create_station options recorded with a station input"""
+    mg = inp.get("mask_given")
+    return {"parent": inp.get("parent", "default"), "mask_given": None if not mg else (mg[0], mg[1], mg[2]), "entry": inp.get("entry", "create_station")}
 
 
 def replay(failure):
@@ -917,6 +1703,16 @@ def replay(failure):
     fam, inp = failure["family"], failure["input"]
     a, f = float(Earth.r), float(Earth.f)
     date = Date(2021, 3, 4, 5, 6, 7)
+    if fam.startswith("mask-") and isinstance(inp, dict) and "okind" in inp and "given" in inp:
+        # a mask handed over at creation, then a history of operations: the recorded history is run again on a fresh station
+        import random
+        check_mask_given(out, random.Random(0), inp["okind"], inp["entry"], inp["given"][0], inp["given"][1], [tuple(o) for o in inp.get("ops", [])],
+                         parent=inp.get("parent", "default"), equatorial=bool(inp.get("equatorial", False)))
+        return out
+    if fam.startswith("station-equatorial") and isinstance(inp, dict):
+        import random
+        check_equatorial(out, random.Random(0), *inp["latlonalt_deg_m"], a, f, date, inp.get("parent", "default"))
+        return out
     if fam.startswith("mask-interp") and isinstance(inp, dict) and "azimuths" in inp:
         st = new_station(10.0, 20.0, 30.0)
         check_mask(out, st, inp["azimuths"], inp["elevations"], inp["azim"], akind=inp.get("akind", "random"))
@@ -928,19 +1724,20 @@ def replay(failure):
     if isinstance(inp, dict) and "latlonalt_deg_m" in inp and "target_itrf" not in inp and "state" not in inp:
         lat_d, lon_d, alt = inp["latlonalt_deg_m"]
         ckind = inp.get("coords_kind", "float-tuple")
-        st = new_station(lat_d, lon_d, alt, kind=ckind)
+        st = new_station(lat_d, lon_d, alt, kind=ckind, **_options(inp))
         lat_d, lon_d, alt = st.c11_deg
         lat, lon = math.radians(lat_d), math.radians(lon_d)
         ref0 = enu_reference(a, f, lat, lon, alt, [0, 0, 0], [0, 0, 0])
         check_station_state(out, st, {"latlonalt_deg_m": [lat_d, lon_d, alt], "coords_kind": ckind}, a, f, lat, lon, alt, date, ref0,
-                            ckind=ckind, fd_frame=inp.get("frame") if inp.get("frame") not in (None, "TOD", "CIRF") else None)
+                            ckind=ckind, fd_frame=inp.get("frame") if inp.get("frame") not in (None, "TOD", "CIRF") else None,
+                            pframe=PARENT_NAME[inp.get("parent", "default")])
         drop_station(st)
         out.failures = [x for x in out.failures if x["family"] == fam] or out.failures
         return out
     if isinstance(inp, dict) and "latlonalt_deg_m" in inp and "target_itrf" in inp:
         lat_d, lon_d, alt = inp["latlonalt_deg_m"]
         ckind = inp.get("coords_kind", "float-tuple")
-        st = new_station(lat_d, lon_d, alt, kind=ckind)
+        st = new_station(lat_d, lon_d, alt, kind=ckind, **_options(inp))
         lat_d, lon_d, alt = st.c11_deg
         lat, lon = math.radians(lat_d), math.radians(lon_d)
         inp_s = {"latlonalt_deg_m": [lat_d, lon_d, alt], "coords_kind": ckind}
@@ -948,7 +1745,7 @@ def replay(failure):
             check_wgs84(out, st, inp_s, a, f, lat, lon, alt, date)
         else:
             t = [float(c) for c in inp["target_itrf"]]
-            check_target(out, st, inp_s, a, f, lat, lon, alt, t[:3], t[3:], date, int(inp.get("path_len", 3)))
+            check_target(out, st, inp_s, a, f, lat, lon, alt, t[:3], t[3:], date, int(inp.get("path_len", 3)), pframe=PARENT_NAME[inp.get("parent", "default")])
         drop_station(st)
         out.failures = [x for x in out.failures if x["family"] == fam] or out.failures
         return out
